@@ -199,10 +199,29 @@ def run_check(mod, ctx):
         for u in units:
             absorb(_worker(u))
     else:
+        # A wall-clock deadline for the whole exploration (default: 20 min quick, 5 h thorough; the unchanged
+        # tree needs about a minute / a quarter of an hour).  Code under test that makes the exploration crawl
+        # must not keep the violations already found from being reported: at the deadline the remaining units
+        # are abandoned, what was found is reported, and the evidence says `cap_hit` / exhaustive=false.
+        deadline = t0 + float(os.environ.get("VERIF_DEADLINE_S") or (1200 if ctx.tier == "quick" else 18000))
         mp = multiprocessing.get_context("fork")
         pool = mp.Pool(min(ctx.workers, len(units)), initializer=_init_worker)
+        done = 0
         try:
-            for res in pool.imap_unordered(_worker, units, chunksize=1):
+            it = pool.imap_unordered(_worker, units, chunksize=1)
+            while True:
+                try:
+                    res = it.next(timeout=max(0.1, deadline - time.time()))
+                except StopIteration:
+                    break
+                except multiprocessing.TimeoutError:
+                    plan["cap_hit"] = {"wall_deadline_s": round(deadline - t0), "units_finished": done,
+                                       "units_total": len(units)}
+                    plan["exhaustive"] = False
+                    sys.stderr.write("deadline: %d of %d units finished within %d s; reporting what was found\n" % (
+                        done, len(units), round(deadline - t0)))
+                    break
+                done += 1
                 absorb(res)
         finally:
             pool.terminate()
